@@ -1514,7 +1514,21 @@ func (d *Driver) finalSweep(ctx context.Context) {
 		}
 		d.tr.Emit("PostInterrupted")
 	}
+	before := map[string]bool{}
+	if ents, err := os.ReadDir(d.psdir); err == nil {
+		for _, e := range ents {
+			before[e.Name()] = true
+		}
+	}
 	d.ps.PostProcess()
+	// materialising the outputs creates outs/ and nothing else in the pipestance directory
+	if ents, err := os.ReadDir(d.psdir); err == nil && len(d.spec.Post) > 0 {
+		for _, e := range ents {
+			if !before[e.Name()] && e.Name() != "outs" && !strings.HasPrefix(e.Name(), "_") {
+				d.res.PostBad = append(d.res.PostBad, "."+e.Name()+": post-processing created "+e.Name()+" in the pipestance directory, outside outs/")
+			}
+		}
+	}
 	d.checkPost()
 	for name, rel := range d.spec.RelFiles {
 		d.res.PostChecked++
